@@ -826,7 +826,10 @@ class IntDom:
                 t = ip_add(t, a.t)
                 lo += a.lo
                 hi += a.hi
-            self._oblig(hi < (1 << w) and lo >= -(1 << (w - 1)), "bvadd may wrap 2^%d: interval [%d,%d]" % (w, lo, hi))
+            if self.allow_signed:
+                self._oblig(hi < (1 << w) and lo >= -(1 << (w - 1)), "bvadd may wrap 2^%d: interval [%d,%d]" % (w, lo, hi))
+            else:
+                self._oblig(hi < (1 << w) and lo >= 0, "lazy add/subtract may wrap or borrow in %d bits: interval [%d,%d]" % (w, lo, hi))
             return IPoly(t, lo, hi, w, lo < 0)
         if op == "bvsub":
             a, b = args
@@ -841,7 +844,10 @@ class IntDom:
             self._oblig(lo >= -(1 << (a.w - 1)) and hi < (1 << a.w), "bvsub leaves the %d-bit range: [%d,%d]" % (a.w, lo, hi))
             return IPoly(ip_add(a.t, b.t, -1), lo, hi, a.w, lo < 0)
         if op == "bvneg":
-            raise Unsupported("bvneg outside a subtraction")
+            # CBMC prints a - b as a + (-b): the negated addend is kept as the negative integer -b; the enclosing bvadd then carries
+            # the "no borrow" obligation (result >= 0) in unsigned code
+            a = args[0]
+            return IPoly(ip_scale(a.t, -1), -a.hi, -a.lo, a.w, True)
         if op == "bvmul":
             a = args[0]
             for b in args[1:]:
